@@ -64,7 +64,7 @@ func plan(c *vf.Ctx) []spec {
 		}
 	}
 	// mix: every combination once, then further passes over the valid ones
-	passes := c.N(1, 26)
+	passes := c.N(1, 14)
 	var cases []bcase
 	cases = append(cases, combos...)
 	for p := 0; p < passes; p++ {
